@@ -148,7 +148,7 @@ fn backward_nest(
                 forall|f0: int, c0: int, h0: int, w0: int| 0 <= f0 < kf && 0 <= c0 < kc && 0 <= h0 < kh && 0 <= w0 < kw ==> #[trigger] kgradient@[f0]@[c0]@[h0]@[w0] == b6(g, Cell::K(f0, c0, h0, w0), f as int, c as int, i as int, j as int, h as int, __it1 as int, b5(g, Cell::K(f0, c0, h0, w0), f as int, c as int, i as int, j as int, h as int, b4(g, Cell::K(f0, c0, h0, w0), f as int, c as int, i as int, j as int, b3(g, Cell::K(f0, c0, h0, w0), f as int, c as int, i as int, b2(g, Cell::K(f0, c0, h0, w0), f as int, c as int, b1(g, Cell::K(f0, c0, h0, w0), f as int, 0.0f32)))))), //@ob adjoint_k.inv
             decreases kw - __it1,
     //@end
-    //@before /let _h = i \* self\.stride\.0 \+ h \* self\.dilation\.0;/
+    //@before /let _h = /
                                 broadcast use {f32_total};
                                 proof {
                                     f32_obeys();
